@@ -906,7 +906,7 @@ def gen_proto_case(rng, tier):
             emit(f"req {p} k={kind} {p_wants(rng, sim)}")
         r = rng.random()
         if r < 0.55:
-            emit(f"conn {p}" + (" dead" if rng.random() < 0.15 else ""))
+            emit(f"conn {p}" + (" dead" if rng.random() < 0.3 else ""))
             if sim.opens:
                 emit(f"subopen s{max(sim.opens)}{fate(rng, 3)}")
         elif r < 0.85:
